@@ -1323,6 +1323,20 @@ class Interp:
         qual = self.plain_classes[name]
         self.instance_classes[name] = qual
         o = Obj(name)
+        # a repository class that extends an EXTERNAL class for which the rule supplies a callable stand-in (a printer of sympy, ...)
+        # and has no constructor of its own: the instance is what the stand-in base constructs, under the subclass's name (methods
+        # the subclass defines are found through the class; everything else is the stand-in's)
+        cdef = self.repo.cls(qual)
+        if cdef.bases and self._class_def(name, "__init__") is None and self._class_def(name, "__new__") is None:
+            for b in cdef.bases:
+                try:
+                    base = self.eval(b, Env({}, {}, qual.split(".")[0], self))
+                except (NoValue, Raised):
+                    continue
+                if isinstance(base, Obj) and base.call is not None:
+                    inst = base.call(*args, **kwargs)
+                    if isinstance(inst, Obj):
+                        return Obj(name, dict(inst.attrs), dict(inst.methods), inst.getitem, inst.call)
         if any(un(b) in ("dict", "collections.UserDict", "UserDict") for b in self.repo.cls(qual).bases):
             store = {}
             o.attrs["__store__"] = store
